@@ -1,12 +1,87 @@
 /- Drv/C13.lean — driver handler for property C13 (line protocol; core-only imports). -/
 import FunsorVerif.Core.Sexp
 import FunsorVerif.Core.XR
+import FunsorVerif.Model.C12
+import FunsorVerif.Model.C13
+import FunsorVerif.Drv.C12
 namespace FV.Drv.C13
-open FV
+open FV FV.C12 FV.C13 FV.Drv.C12
 
-/-- `args` are the top-level S-expressions following the property tag on the request line. -/
+/-! requests (G as in Drv/C12.lean):
+  C13 marginal G (NAME*)      integrate out the named real inputs (a proper subset)
+       -> ok (marg G' dimB detB) (dense Λ' η' c')     G' = model of the code's square-root result,
+                                                       dense = Schur closed form of dense(G) (constants
+                                                       exclude dimB/2·log 2π − ½ log detB)
+          | ok (err too-little-information) | ok (err not-positive-definite)
+  C13 lognorm G               -> ok (rat det dim)      value = dim/2·log 2π − ½ log det + rat
+  C13 meancov G               -> ok ((mean*) (cov rows))
+  C13 integrate G H           -> ok q                  Integrate(G, H, reals)/exp(lognorm G), H aligned to G
+  C13 inverse n (rows)        -> ok ((rows) det) | ok singular
+-/
+
+def errStr : MargErr → String
+  | .tooLittleInformation => "ok (err too-little-information)"
+  | .notPositiveDefinite => "ok (err not-positive-definite)"
+
 def handle (args : List Sexp) : String :=
   match args with
-  | _ => "err unimplemented"
+  | [Sexp.atom "marginal", g, names] =>
+      match ng? g, names.asStrs? with
+      | some g, some names =>
+          let isB := fun k => names.contains k
+          if g.inputs.all (fun p => isB p.1) || !(g.inputs.any fun p => isB p.1) then "err not-a-proper-subset" else
+          let ia := blockIdx 0 g.inputs (fun k => !isB k)
+          let ib := blockIdx 0 g.inputs isB
+          match marginal? g.raw ia ib with
+          | .error e => errStr e
+          | .ok m =>
+              let inpA := g.inputs.filter fun p => !isB p.1
+              let d := g.raw.dense
+              let lbb : M := fun i j => match ib[i]?, ib[j]? with
+                | some s, some t => d.prec s t
+                | _, _ => 0
+              match inverse? ib.length lbb with
+              | none => "err spec-singular"
+              | some (binv, _) =>
+                  if !(isInverse ib.length lbb binv) then "err spec-inverse" else
+                  let s := schur d ia ib binv
+                  "ok " ++ toString (Sexp.list [Sexp.atom "marg",
+                      ngToSexp { inputs := inpA, rank := m.g.rank, w := m.g.w, P := m.g.P },
+                      Sexp.ofNat m.dimB, ratToSexp m.detB]) ++ " " ++ toString (denseToSexp s)
+      | _, _ => "err bad-args"
+  | [Sexp.atom "lognorm", g] =>
+      match ng? g with
+      | some g =>
+          match logNormalizer? g.raw with
+          | .error e => errStr e
+          | .ok (r, det) => "ok " ++ toString (Sexp.list [ratToSexp r, ratToSexp det, Sexp.ofNat g.dim])
+      | none => "err bad-args"
+  | [Sexp.atom "meancov", g] =>
+      match ng? g with
+      | some g =>
+          match meanCov? g.raw with
+          | .error e => errStr e
+          | .ok (mu, cov) => "ok " ++ toString (Sexp.list [ratsToSexp (tabV g.dim mu), rowsToSexp (tabM g.dim g.dim cov)])
+      | none => "err bad-args"
+  | [Sexp.atom "integrate", g, h] =>
+      match ng? g, ng? h with
+      | some g, some h =>
+          if g.inputs != h.inputs then "err layouts-differ" else
+          match integrateGauss? g.raw h.raw with
+          | .error e => errStr e
+          | .ok q => "ok " ++ toString (ratToSexp q)
+      | _, _ => "err bad-args"
+  | [Sexp.atom "inverse", n, rows] =>
+      match n.asNat?, ratRows? rows with
+      | some n, some rows =>
+          match inverse? n (ofRows rows) with
+          | none => "ok singular"
+          | some (inv, det) =>
+              if isInverse n (ofRows rows) inv then
+                "ok " ++ toString (Sexp.list [rowsToSexp (tabM n n inv), ratToSexp det])
+              else "err inverse-check-failed"
+      | _, _ => "err bad-args"
+  | Sexp.atom "C12" :: rest => FV.Drv.C12.handle rest      -- plate sums reuse the C12 model (fuse, eval)
+  | _ => "err bad-request"
 
 end FV.Drv.C13
